@@ -1370,10 +1370,55 @@ func unwrap(v ssa.Value) ssa.Value {
 			v = x.X
 		case *ssa.ChangeInterface:
 			v = x.X
+		case *ssa.UnOp:
+			// a parameter that a function literal captures lives in a heap cell; a load of that cell,
+			// written once at entry with the parameter, is the parameter
+			if p := spilledParam(x); p != nil {
+				return p
+			}
+			return v
 		default:
 			return v
 		}
 	}
+}
+
+// spilledParam: for a load *A where A is a cell stored exactly once, with a parameter, and never
+// written through a capturing function literal: that parameter.
+func spilledParam(ld *ssa.UnOp) *ssa.Parameter {
+	if ld.Op.String() != "*" {
+		return nil
+	}
+	a, ok := ld.X.(*ssa.Alloc)
+	if !ok || a.Referrers() == nil {
+		return nil
+	}
+	var par *ssa.Parameter
+	n := 0
+	for _, r := range *a.Referrers() {
+		switch x := r.(type) {
+		case *ssa.Store:
+			if x.Addr == ssa.Value(a) {
+				n++
+				par, _ = x.Val.(*ssa.Parameter)
+			}
+		case *ssa.MakeClosure:
+			fn, _ := x.Fn.(*ssa.Function)
+			for bi, b := range x.Bindings {
+				if b == ssa.Value(a) && fn != nil && bi < len(fn.FreeVars) && fn.FreeVars[bi].Referrers() != nil {
+					for _, fr := range *fn.FreeVars[bi].Referrers() {
+						if st, isSt := fr.(*ssa.Store); isSt && st.Addr == ssa.Value(fn.FreeVars[bi]) {
+							n += 2
+						}
+					}
+				}
+			}
+		}
+	}
+	if n == 1 && par != nil {
+		return par
+	}
+	return nil
 }
 
 // liveStores filters the stores into alloc a that may be visible to a load of `path` at L.
@@ -1937,4 +1982,56 @@ func isIterCond(t *Term) bool {
 		return true
 	}
 	return t.Op == "extract" && t.Name == "0" && len(t.Args) == 1 && t.Args[0].Op == "next"
+}
+
+// reachesFlagAware: can control get from the edge pred->start to target? Like reaches, except that a
+// block whose branch condition is a phi of that block (a loop flag: `for running { ... running = false }`)
+// is left only through the successor selected by the constant that arrives over the edge taken.
+func reachesFlagAware(pred, start, target *ssa.BasicBlock) bool {
+	type edge struct{ from, to *ssa.BasicBlock }
+	seen := map[edge]bool{}
+	work := []edge{{pred, start}}
+	for len(work) > 0 {
+		e := work[len(work)-1]
+		work = work[:len(work)-1]
+		if seen[e] {
+			continue
+		}
+		seen[e] = true
+		b := e.to
+		if b == target {
+			return true
+		}
+		succs := b.Succs
+		if len(b.Instrs) > 0 {
+			if ifi, ok := b.Instrs[len(b.Instrs)-1].(*ssa.If); ok {
+				cond := ifi.Cond
+				neg := false
+				if u, isU := cond.(*ssa.UnOp); isU && u.Op.String() == "!" {
+					cond, neg = u.X, true
+				}
+				if ph, isPhi := cond.(*ssa.Phi); isPhi && ph.Block() == b {
+					for k, p := range b.Preds {
+						if p == e.from && k < len(ph.Edges) {
+							if cst, isC := ph.Edges[k].(*ssa.Const); isC && cst.Value != nil {
+								val := cst.Value.String() == "true"
+								if neg {
+									val = !val
+								}
+								if val {
+									succs = b.Succs[:1]
+								} else {
+									succs = b.Succs[1:2]
+								}
+							}
+						}
+					}
+				}
+			}
+		}
+		for _, s := range succs {
+			work = append(work, edge{b, s})
+		}
+	}
+	return false
 }
